@@ -57,6 +57,8 @@ static void dump_population(vio* io, solver& s) {
             OI(n.coupled_node_.has_value() ? n.coupled_node_->first : -1);
             OI(n.coupled_node_.has_value() ? n.coupled_node_->second : -1);
 #endif
+            // the integrator clears the force of every node it advances: a force left after an iteration means the node was not integrated
+            OI(n.force_.dx() == 0. && n.force_.dy() == 0. && n.force_.dz() == 0.);
         }
         for (const face& f : c.face_lst_) {
             OI(f.is_used()); OI(f.get_local_face_type_id());
